@@ -668,7 +668,8 @@ impl<'a> Sess<'a> {
             "seek" => {
                 let h = sarg(op, "h");
                 let from = sarg(op, "from");
-                let off = iarg(op, "off");
+                // SeekFrom::Start takes an unsigned offset
+                let off = if from == "start" { iarg(op, "off").max(0) } else { iarg(op, "off") };
                 a.insert("h".into(), json!(h));
                 a.insert("from".into(), json!(from));
                 a.insert("off".into(), json!(off));
@@ -1038,7 +1039,7 @@ pub fn run_program(prog: &Value, w: &mut dyn std::io::Write) -> u64 {
                     break;
                 }
             }
-            if end == End::Abandon || end == End::Panic {
+            if end == End::Panic {
                 for (_, f) in sess.files.drain() {
                     std::mem::forget(f);
                 }
@@ -1104,6 +1105,24 @@ pub fn run_program(prog: &Value, w: &mut dyn std::io::Write) -> u64 {
         out.emit(ev);
         if end == End::Finish {
             break;
+        }
+        // optional harness-side modification of the unmounted image ("someone else touched the volume")
+        if let Some(pokes) = ops.get(pc.wrapping_sub(1)).and_then(|o| o.get("poke")).and_then(Value::as_array) {
+            dev.begin_op();
+            {
+                let mut d = dev.0.borrow_mut();
+                for p in pokes {
+                    let off = p[0].as_u64().unwrap_or(0);
+                    let bytes: Vec<u8> = p[1].as_array().map(|a| a.iter().map(|x| x.as_u64().unwrap_or(0) as u8).collect()).unwrap_or_default();
+                    d.img.write_at(off, &bytes);
+                }
+            }
+            let mut ev = Map::new();
+            ev.insert("op".into(), json!("poke"));
+            ev.insert("a".into(), json!({"poke": pokes}));
+            ev.insert("r".into(), json!({"k":"ok"}));
+            finish_event(&mut ev, &dev, &geo, &cfg, &dopts, &mut out, None, &clock);
+            out.emit(ev);
         }
     }
     // crash-image enumeration (C14), if requested
